@@ -143,6 +143,19 @@ def make_cases(r, tier):
             src, lang, kind = lx.literal_program(r, 10, cpp=False), "C", "literals-c"
         cfg, tag = cfg_for(r.randrange(5))
         cases.append(lx.LCase("gen:%d:%s:%s" % (i, kind, tag), lang, cfg, src.encode("utf-8")))
+    # fixed in every tier: every operator whose last character could open or extend a comment ('/', '*') or glue to one, directly in front of and
+    # behind block and line comments, under "every sp_ option = remove" with the trailing-comment gap at 0 (round-4 seed: the '/'-before-comment guard of
+    # space_text() folded into the punctuator lookup, which comment chunks never reach)
+    opcmt = ("int ratio(int total, int parts)\n{\n    return total / /* never zero */ parts;\n}\n"
+             "int scale(int v, int unit)\n{\n    int r = v / // per unit\n            unit;\n    return r; /* done */\n}\n"
+             "int m(int a, int *p)\n{\n    int q = a * /* times */ *p;\n    q = a /* c1 */ / /* c2 */ 2;\n    q /= /* c3 */ 3;\n    q = a % // c4\n        2;\n"
+             "    q = a - /* c5 */ -a;\n    q = a / /**/ 2 / // c6\n        3;\n    return q /* c7 */;\n}\n"
+             "#define D(a, b) ((a) / /* in macro */ (b))\n#define E(a) ((a) / // tail\n")
+    for j, extra in enumerate(["", "sp_before_tr_cmt=remove\nsp_num_before_tr_cmt=0\n", "sp_arith=remove\n", "sp_before_tr_cmt=remove\nsp_num_before_tr_cmt=0\nsp_arith=remove\nsp_assign=remove\n"]):
+        for val in ("remove", "force"):
+            cases.append(lx.LCase("fixed:op-comment:%s:%d" % (val, j), "C", "\n".join(lx.all_sp(val)) + "\n" + extra, opcmt.encode()))
+    cases.append(lx.LCase("fixed:op-comment:plain-remove", "C", "sp_arith=remove\n", opcmt.encode()))
+    cases.append(lx.LCase("fixed:op-comment:tr-remove", "C", "sp_before_tr_cmt=remove\nsp_num_before_tr_cmt=0\n", opcmt.encode()))
     for i, c in enumerate(lx.corpus_cases(r, no, langs=("CS", "D", "JAVA", "PAWN", "VALA", "ECMA"))):
         c.cfg_text, tag = cfg_for(i)
         c.label += ":" + tag
